@@ -250,7 +250,7 @@ def run(ctx):
     try:
         import pynbt
         from minecraft.networking.packets.clientbound.play import JoinGamePacket, RespawnPacket
-        for v in [x for x in versions if rank[x] >= rank[718]][:12]:
+        for v in [x for x in SUP if rank[x] >= rank[718]]:      # all of them: few, and layouts change often here
             cx = ConnectionContext(protocol_version=v)
             for cls in (JoinGamePacket, RespawnPacket):
                 d = [(n, t) for f in cls.get_definition(cx) for n, t in f.items()]
@@ -272,7 +272,11 @@ def run(ctx):
                 ctx.case(('nbt', cls.__name__, v))
                 if rb.read():
                     ctx.violation('%s at %d: payload not consumed' % (cls.__name__, v), {}, key={'nbt': [cls.__name__, v]})
-                repr(q)
+                try:
+                    repr(p), repr(q), str(q)
+                except Exception as e:
+                    ctx.violation('%s at protocol %d: textual representation raises %r' % (cls.__name__, v, e),
+                                  {'class': cls.__name__, 'version': v}, key={'class': cls.__name__, 'version': v, 'kind': 'repr'})
     except ImportError:
         ctx.notes.append('pynbt missing: NBT classes not exercised')
     # ------------------------------------------------------------------ user-defined packets: random field lists
